@@ -109,13 +109,13 @@ func gen(g *mon.Gen) {
 		g.Emit(&Case{Kind: "tcp-consistent", FC: fc, Lo: 0, Hi: hi, Seed: rng.Int63()})
 		g.Emit(&Case{Kind: "rtu-shaped", FC: fc, Lo: 0, Hi: hi, Seed: rng.Int63()})
 	}
-	for i := 0; i < g.Pick(60, 1500); i++ {
+	for i := 0; i < g.Pick(60, 6000); i++ {
 		g.Emit(&Case{Kind: "mutate", Seed: rng.Int63()})
 	}
 	for fc := 0; fc < 256; fc++ {
 		g.Emit(&Case{Kind: "small", FC: fc})
 	}
-	for i := 0; i < g.Pick(40, 2000); i++ {
+	for i := 0; i < g.Pick(40, 8000); i++ {
 		g.Emit(&Case{Kind: "random", Seed: rng.Int63(), N: 100})
 	}
 }
